@@ -53,6 +53,9 @@ Inductive pcons :=
 | CSeq                                   (* GenomicSequence[intervals] *)
 | CLocation (w : Z).                     (* .get_location(where) *)
 
+(* the genome-wide arrays whose run-length view is read *)
+Inductive tkind := TPileup | TMask | TNotMask.   (* get_pileup() / get_mask() / ~get_mask() *)
+
 Inductive op :=
 | OCoords                                (* GlobalOffset.from_local_coordinates / to_local_coordinates *)
 | OPileup (geo : bool) | OMask (geo : bool)      (* geo: through Geometry(chrom_sizes) instead of Genome.get_intervals *)
@@ -64,7 +67,11 @@ Inductive op :=
 | OLocSorted
 | OExtract (stranded : bool)             (* GenomicArray[GenomicIntervals] *)
 | OSeq (stranded : bool)                 (* GenomicSequence[GenomicIntervals] *)
-| OProg (stranded : bool) (steps : list pstep) (cons : pcons).   (* interval-producing steps, then a strand-aware use *)
+| OProg (stranded : bool) (steps : list pstep) (cons : pcons)    (* interval-producing steps, then a strand-aware use *)
+| ORuns (k : tkind)                      (* track.get_data() / GenomicIntervals.from_track(track) / from_bedgraph(get_data()):
+                                            the BedGraph / Interval rows (chromosome, start, stop, value) of a genome-wide array *)
+| OUnder (neg seq : bool).               (* values at the True positions of a genome-wide mask (neg: of ~mask):
+                                            seq: GenomicSequence[mask] ; otherwise GenomicArray[mask] *)
 
 (* ---------- ignored chromosomes (genome_context.py: from_dict, __init__, mask_data) ---------- *)
 Definition has_us (n : list Z) : bool := existsb (Z.eqb 95) n.           (* '_' *)
@@ -165,7 +172,37 @@ Definition triple (e : entry) : Z * Z * Z := (e_chr e, e_start e, e_stop e).
 Definition ivs_of (es : list entry) : list (Z * Z) := map (fun e => (e_start e, e_stop e)) es.
 Definition on_chr (es : list entry) (c : Z) : list entry := filter (fun e => e_chr e =? c) es.
 
+(* ---------- the run-length reading of an array: its maximal constant runs (start, stop, value) ---------- *)
+Fixpoint runs_from (start pos v : Z) (rest : list Z) : list (Z * Z * Z) :=
+  match rest with
+  | [] => [(start, pos, v)]
+  | x :: r => if x =? v then runs_from start (pos + 1) v r else (start, pos, v) :: runs_from pos (pos + 1) x r
+  end.
+Definition rle (a : list Z) : list (Z * Z * Z) := match a with [] => [] | x :: r => runs_from 0 1 x r end.
+(* rows [chromosome; start; stop; value] of one chromosome's array; a boolean array lists its True runs only *)
+Definition rows_of (is_bool : bool) (c : Z) (a : list Z) : list (list Z) :=
+  map (fun '(s, t, v) => [c; s; t; v]) (filter (fun '(_, _, v) => negb is_bool || (v =? 1)) (rle a)).
+Definition track_rows (is_bool : bool) (arrs : list (list Z)) : list (list Z) :=
+  concat (map (fun p : Z * list Z => rows_of is_bool (fst p) (snd p)) (combine (arange (len arrs)) arrs)).
+Definition flip01 (x : Z) : Z := if x =? 0 then 1 else 0.
+Definition tk_bool (k : tkind) : bool := match k with TPileup => false | _ => true end.
+
 (* =================================================================== Part A: Spec *)
+(* the BedGraph / Interval view of a genome-wide array: for every chromosome the runs of that chromosome's own
+   single-contig result — also for a chromosome without entries (one run of 0) or covered completely *)
+Definition spec_track (k : tkind) (szs : list Z) (es : list entry) : list (list Z) :=
+  map (fun c => match k with
+                | TPileup => pileup1 (size_of szs c) (ivs_of (on_chr es c))
+                | TMask => mask1 (size_of szs c) (ivs_of (on_chr es c))
+                | TNotMask => map flip01 (mask1 (size_of szs c) (ivs_of (on_chr es c)))
+                end) (arange (len szs)).
+Definition spec_runs (k : tkind) (szs : list Z) (es : list entry) : list (list Z) :=
+  track_rows (tk_bool k) (spec_track k szs es).
+(* the values at the True positions of the mask: chromosome by chromosome, that chromosome's own values under its own mask *)
+Definition spec_under (neg : bool) (szs : list Z) (vals : list (list Z)) (es : list entry) : list Z :=
+  concat (map (fun c => mask_select (map (fun x => x =? 1) (nthd [] (spec_track (if neg then TNotMask else TMask) szs es) c))
+                                    (nthd [] vals c)) (arange (len szs))).
+
 (* every chromosome gets the single-contig kernel applied to its own entries, nothing else *)
 Definition spec_pileup (szs : list Z) (es : list entry) : list (list Z) :=
   map (fun c => pileup1 (size_of szs c) (ivs_of (on_chr es c))) (arange (len szs)).
@@ -248,6 +285,34 @@ Definition model_mask (szs : list Z) (es : list entry) : res :=
   match check_bounds szs es with
   | Some c => RErr c
   | None => RArrays (split_chroms szs (mask1 (total szs) (ivs_of (globalise szs es))))
+  end.
+
+(* ---------- GenomicArrayGlobal.get_data: the global run-length track sliced at the offsets, chromosome by chromosome,
+   each slice's runs as BedGraph rows (Interval rows of the True runs for a boolean track) ---------- *)
+Definition global_track (k : tkind) (szs : list Z) (es : list entry) : list Z :=
+  match k with
+  | TPileup => pileup1 (total szs) (ivs_of (globalise szs es))
+  | TMask => mask1 (total szs) (ivs_of (globalise szs es))
+  | TNotMask => map flip01 (mask1 (total szs) (ivs_of (globalise szs es)))     (* ufunc on the global track *)
+  end.
+Definition model_get_data (is_bool : bool) (szs : list Z) (garr : list Z) : list (list Z) :=
+  track_rows is_bool (split_chroms szs garr).
+Definition model_runs (k : tkind) (szs : list Z) (es : list entry) : res :=
+  match check_bounds szs es with
+  | Some c => RErr c
+  | None => RRows (model_get_data (tk_bool k) szs (global_track k szs es))
+  end.
+(* GenomicSequence._index_boolean: extract_intervals(mask.get_data()).ravel() — the rows of get_data, each looked up on
+   its chromosome's own sequence;  GenomicArrayGlobal._index_boolean: global_track[mask.global_track] *)
+Definition model_under (neg seq : bool) (szs : list Z) (vals : list (list Z)) (es : list entry) : res :=
+  match check_bounds szs es with
+  | Some c => RErr c
+  | None =>
+      let gm := global_track (if neg then TNotMask else TMask) szs es in
+      if seq then
+        RRows [concat (map (fun row => slice (nthZ row 1) (nthZ row 2) (nthd [] vals (nthZ row 0)))
+                           (model_get_data true szs gm))]
+      else RRows [mask_select (map (fun x => x =? 1) gm) (concat vals)]
   end.
 
 (* ---------- merged ---------- *)
